@@ -119,6 +119,12 @@ func c15baseTypes(num func(t string, vals []string) c15type) []c15type {
 			}
 			return "s", s
 		}},
+		{"union-i", "union { type identityref { base idb; } type int32; }", func(r *core.Rng) string { return core.Pick(r, []string{"d1", "d2", "5", "-3"}) }, func(s string, _ bool) (string, string) {
+			if _, err := strconv.Atoi(s); err == nil {
+				return "n", s
+			}
+			return "s", s
+		}},
 		{"union", "union { type int32; type string; }", func(r *core.Rng) string { return core.Pick(r, []string{"5", "-7", "abc", "x y"}) }, func(s string, _ bool) (string, string) {
 			if _, err := fmt.Sscanf(s, "%d", new(int)); err == nil && !strings.Contains(s, " ") {
 				return "n", s
@@ -153,7 +159,7 @@ func c15genKids(r *core.Rng, sc *c15schema, ts []c15type, depth int, n int, mod 
 			name := fmt.Sprintf("f%d", c15seq)
 			sc.types[name] = t
 			sc.mod[name] = mod
-			if r.Chance(20) && t.name != "empty" && t.name != "union-e" {
+			if r.Chance(20) && t.name != "empty" && t.name != "union-e" && t.name != "union-i" {
 				sc.lists[name] = true
 			}
 			lf := &gen.SNode{Name: name, Kind: "leaf", Type: t.yang}
@@ -252,7 +258,7 @@ func c15allTypesKids(sc *c15schema, ts []c15type) []*gen.SNode {
 	var kids []*gen.SNode
 	for i, t := range ts {
 		for _, list := range []bool{false, true} {
-			if list && (t.name == "empty" || t.name == "union-e") {
+			if list && (t.name == "empty" || t.name == "union-e" || t.name == "union-i") {
 				continue // (a union leaf-list is held as one typed list: its members cannot be mixed)
 			}
 			c15seq++
